@@ -116,6 +116,7 @@ T = [
     ["v = lambda p, *q, k=$E: (p, k)"],
     ["def fd():", "    return $E", "    $B"],
     ["v = [(lambda: $E), (lambda: $E)]"],
+    ["def fe(p):", '    ""', "    $B", '    return ("", $E)'],
 ]
 
 # contexts: (name, header lines, indent)
